@@ -40,7 +40,7 @@ PROPS['C01'] = dict(
     rule='cells: every one of the 36 (coarsening, relaxation) cells x 12 (solver, side) pairs on G1 model problems (5/7/9-point diffusion, contrast <= 10, anisotropy >= 0.1, 500 <= n <= 2e4; '
          'quick 2 problems, thorough 6 problems x 3 cycle settings) with default tolerance and budget. truthful: seeded random calls over G1 (contrast <= 1e3, anisotropy >= 1e-3), G2 graph Laplacians, '
          'G3 convection-diffusion (also structurally non-symmetric), G5 Kronecker block systems, random cell, cycle / level parameters, solver parameters, right-hand side (random, consistent, scaled), '
-         'initial guess (zero, random, large, near-solution), tolerance in {1e-4,1e-6,1e-8}, full and truncated (3..9) budgets: 24 monitored solves per case. richardson: every cell on a small model problem. '
+         'initial guess (zero, random, large, near-solution), tolerance in {1e-4,1e-6,1e-8}, full and truncated (3..9) budgets: 24 monitored solves per case; every solver parameter that changes the arithmetic is drawn (BiCGStab(L): L, convex, delta in {0,1e-3,1e-2,1e-1}; IDR(s): s, smoothing, replacement, omega; GMRES family: M down to 1, LGMRES K, always_reset; Richardson damping; check_after; abstol; ns_search, also with a zero right-hand side); every third case uses a weak preconditioner (relaxation::as_preconditioner with spai0 / damped_jacobi / ilu0 / gauss_seidel / chebyshev, dummy, single-level amg), half of them on convection-diffusion, where Krylov residual histories are non-monotone and budgets are exhausted. richardson: every cell on a small model problem. '
          'types: complex (Hermitian gauge / shifted), 2x2 and 3x3 block-valued, float. A case is non-trivial when the hierarchy has >= 2 levels and at least one solver iterated (cells), '
          'or at least one monitored solve iterated and reported a finite value (other subs). distinct = distinct (sub-check, descriptor) hash.',
     exhaustive_note='the 4 x 9 x 12 (coarsening, relaxation, solver-side) grid is enumerated completely on every model problem of sub-check cells and on a small problem in sub-check richardson',
